@@ -52,6 +52,7 @@ Fixpoint agree_trace (c : fcase) (s : forest) (ops : list cop) (obs : list (link
   | o :: ops', (l, code) :: obs' =>
       let r := cstep (cfg_of c) s o in
       Bool.eqb (is_ok (snd r)) (accepted code)
+      && Nat.eqb (match snd r with Ok => 0 | Err e => exn_code e end) code   (* the same exception class *)
       && same_links (fst r) (state_of c l)
       && agree_trace c (fst r) ops' obs'
   | _, _ => false
